@@ -33,16 +33,16 @@ theorem straight_eq {P c : Color} {a : Rat} (h : ∀ ch, P ch = c ch * a) (ha : 
   field_simp
 
 /-- **One element**: an `_apply_source` step of the code is one step of the published recurrences on
-premultiplied colour — for a knockout element with the group-alpha rule as coded (`KoRule.asCoded`). -/
+premultiplied colour — for a knockout element with the group-alpha rule as coded (`KoRule.pdf17`). -/
 theorem applySource_rel {bl : Color → Color → Color} {st : PState} {σ : SState} {color Ps : Color}
     {shape alpha : Rat} (h : Inv st) (hr : Rel st σ) (hs : SrcOk color shape alpha) (hb : BlendOk bl)
     (hP : ∀ ch, Ps ch = color ch * alpha) (ko : Bool) :
-    Rel (applySource bl st color shape alpha ko) (specSource .asCoded bl σ Ps shape alpha ko) := by
-  have hag : (specSource .asCoded bl σ Ps shape alpha ko).ag = (applySource bl st color shape alpha ko).ag := by
+    Rel (applySource bl st color shape alpha ko) (specSource .pdf17 bl σ Ps shape alpha ko) := by
+  have hag : (specSource .pdf17 bl σ Ps shape alpha ko).ag = (applySource bl st color shape alpha ko).ag := by
     unfold specSource applySource KoRule.alpha
     simp only
     rw [hr.ag, hr.a0]
-  have ha : (specSource .asCoded bl σ Ps shape alpha ko).a = (applySource bl st color shape alpha ko).a := by
+  have ha : (specSource .pdf17 bl σ Ps shape alpha ko).a = (applySource bl st color shape alpha ko).a := by
     unfold specSource applySource KoRule.alpha
     simp only
     rw [hr.ag, hr.a0]
@@ -83,11 +83,11 @@ theorem finishApply_rel {B : Mode → Color → Color → Color} (hB : BOk B) {p
     (x y : Int) {st : PState} {σ : SState} (hst : Inv st) (hr : Rel st σ) {color Pj : Color} {shape alpha : Rat}
     (hc : ColorOk color) (ha0 : 0 ≤ alpha) (has : alpha ≤ shape) (hs1 : shape ≤ 1)
     (hP : ∀ ch, Pj ch = color ch * alpha) :
-    Rel (finishApply B V x y st pr color shape alpha) (specFinish .asCoded B V x y σ pr Pj shape alpha) := by
+    Rel (finishApply B V x y st pr color shape alpha) (specFinish .pdf17 B V x y σ pr Pj shape alpha) := by
   have hsrc := finishApply_src hp V x y hc ha0 has hs1
   show Rel (applySource (B pr.mode) st color (shape * (maskFactors pr V x y).1 * pr.fill)
       (alpha * ((maskFactors pr V x y).1 * (maskFactors pr V x y).2 * pr.opacity) * pr.fill) pr.knockout)
-    (specSource .asCoded (B pr.mode) σ
+    (specSource .pdf17 (B pr.mode) σ
       (fun ch => ((maskFactors pr V x y).1 * (maskFactors pr V x y).2 * pr.opacity * pr.fill) * Pj ch)
       (shape * ((maskFactors pr V x y).1 * pr.fill))
       (alpha * ((maskFactors pr V x y).1 * (maskFactors pr V x y).2 * pr.opacity * pr.fill)) pr.knockout)
@@ -118,7 +118,7 @@ mutual
 everything below it: masks, opacity and fill, nested isolated and pass-through groups, clip runs, knockout). -/
 theorem applyNode_rel {B : Mode → Color → Color → Color} (hB : BOk B) (V : Rect) (x y : Int) (cc : Bool)
     (st : PState) (σ : SState) (hst : Inv st) (hr : Rel st σ) :
-    (n : Node) → nodeOk n → Rel (applyNode B V x y cc st n) (specNode .asCoded B V x y cc σ n)
+    (n : Node) → nodeOk n → Rel (applyNode B V x y cc st n) (specNode .pdf17 B V x y cc σ n)
   | .leaf pr hasPixels color shape clips, hn => by
     obtain ⟨hp, hcol, hsh, hcl⟩ := hn
     unfold applyNode specNode
@@ -182,7 +182,7 @@ theorem applyNode_rel {B : Mode → Color → Color → Color} (hB : BOk B) (V :
       (SState.init Pb alphaB (!passThrough)) i1 (rel_init (!passThrough) hPb) children hch
     have hfc : ColorOk (finishColor (applyList B (intersect V pr.bbox) x y (PState.init colorB alphaB (!passThrough)) children)) :=
       fun ch => clip_unit _
-    have hgc : ∀ ch, groupColor (specList .asCoded B (intersect V pr.bbox) x y (SState.init Pb alphaB (!passThrough)) children) ch
+    have hgc : ∀ ch, groupColor (specList .pdf17 B (intersect V pr.bbox) x y (SState.init Pb alphaB (!passThrough)) children) ch
         = finishColor (applyList B (intersect V pr.bbox) x y (PState.init colorB alphaB (!passThrough)) children) ch
           * (applyList B (intersect V pr.bbox) x y (PState.init colorB alphaB (!passThrough)) children).ag := by
       intro ch
@@ -190,7 +190,7 @@ theorem applyNode_rel {B : Mode → Color → Color → Color} (hB : BOk B) (V :
       unfold groupColor groupNum
       rw [hsrel.P ch, hsrel.P0 ch, hsrel.ag]; ring
     rw [hsrel.sg, hsrel.ag]
-    generalize specList .asCoded B (intersect V pr.bbox) x y (SState.init Pb alphaB (!passThrough)) children = σsub at hgc hsrel ⊢
+    generalize specList .pdf17 B (intersect V pr.bbox) x y (SState.init Pb alphaB (!passThrough)) children = σsub at hgc hsrel ⊢
     generalize applyList B (intersect V pr.bbox) x y (PState.init colorB alphaB (!passThrough)) children = sub
       at hsub hxsub hsrel hfc hgc ⊢
     by_cases hin : (intersect V pr.bbox).contains x y = true
@@ -221,7 +221,7 @@ theorem applyNode_rel {B : Mode → Color → Color → Color} (hB : BOk B) (V :
 
 theorem applyList_rel {B : Mode → Color → Color → Color} (hB : BOk B) (V : Rect) (x y : Int)
     (st : PState) (σ : SState) (hst : Inv st) (hr : Rel st σ) :
-    (ns : List Node) → listOk ns → Rel (applyList B V x y st ns) (specList .asCoded B V x y σ ns)
+    (ns : List Node) → listOk ns → Rel (applyList B V x y st ns) (specList .pdf17 B V x y σ ns)
   | [], _ => by unfold applyList specList; exact hr
   | n :: rest, h => by
     unfold applyList specList
@@ -230,7 +230,7 @@ theorem applyList_rel {B : Mode → Color → Color → Color} (hB : BOk B) (V :
 
 theorem applyClips_rel {B : Mode → Color → Color → Color} (hB : BOk B) (V : Rect) (x y : Int)
     (st : PState) (σ : SState) (hst : Inv st) (hr : Rel st σ) :
-    (ns : List Node) → listOk ns → Rel (applyClips B V x y st ns) (specClips .asCoded B V x y σ ns)
+    (ns : List Node) → listOk ns → Rel (applyClips B V x y st ns) (specClips .pdf17 B V x y σ ns)
   | [], _ => by unfold applyClips specClips; exact hr
   | n :: rest, h => by
     unfold applyClips specClips
@@ -241,10 +241,10 @@ end
 /-- **Whole documents.** -/
 theorem compositeDoc_rel {B : Mode → Color → Color → Color} (hB : BOk B) (V : Rect) (x y : Int) {color : Color}
     {alpha : Rat} (hc : ColorOk color) (ha : Unit01 alpha) (layers : List Node) (hl : listOk layers) :
-    (compositeDoc B V x y color alpha layers).2.1 = (specDoc .asCoded B V x y (fun ch => alpha * color ch) alpha layers).2.1 ∧
-    (compositeDoc B V x y color alpha layers).2.2 = (specDoc .asCoded B V x y (fun ch => alpha * color ch) alpha layers).2.2 ∧
+    (compositeDoc B V x y color alpha layers).2.1 = (specDoc .pdf17 B V x y (fun ch => alpha * color ch) alpha layers).2.1 ∧
+    (compositeDoc B V x y color alpha layers).2.2 = (specDoc .pdf17 B V x y (fun ch => alpha * color ch) alpha layers).2.2 ∧
     ∀ ch, (compositeDoc B V x y color alpha layers).1 ch * (compositeDoc B V x y color alpha layers).2.2
-      = (specDoc .asCoded B V x y (fun ch => alpha * color ch) alpha layers).1 ch := by
+      = (specDoc .pdf17 B V x y (fun ch => alpha * color ch) alpha layers).1 ch := by
   have i0 := inv_init hc ha false
   have hrel := applyList_rel hB V x y (PState.init color alpha false)
     (SState.init (fun ch => alpha * color ch) alpha false) i0 (rel_init false (fun ch => by ring)) layers hl
